@@ -350,6 +350,10 @@ def random_vals(script, opts, rnd):
         vals["tol.d"] = rnd.randint(0, 5)
     for k, s in enumerate(opts.get("clock") or []):
         vals[f"lag{k}.d"] = rnd.randint(0, 8)
+        if isinstance(s, dict):
+            vals[f"k{k}.t"] = base + rnd.randint(-2, 14)
+            vals[f"k{k}.d"] = rnd.randint(0, 6)
+            vals[f"k{k}.p"] = rnd.choice([1, 2, 4])
     return vals
 
 
